@@ -4,6 +4,7 @@
 From Coq Require Import List Bool Arith NArith.
 Import ListNotations.
 From Supp Require Import Model.PyCore Model.Reach Model.Sem Proofs.ReachProofs Proofs.ReachCorollaries Proofs.ReachExtra.
+From Supp Require Import Model.ReachX Model.SemX Model.SemXS Proofs.ReachXProofs.
 
 (* For every program c of the structured fragment [ok] (any size, any nesting), every execution
    of it from any state p abstracted by the analysis state s (any branch outcomes, any number of
@@ -99,3 +100,83 @@ Theorem C02_second_pass_adds_nothing : forall tg b s x a,
   In a (an b (an tg (join s (an b (an tg s)))) x) <-> In a (an b (an tg s) x).
 Proof. exact ReachExtra.for_body_end_stable. Qed.
 Print Assumptions C02_second_pass_adds_nothing.
+
+(* ---- Extension beyond the property's stated domain: loops left by break / continue / return ----
+   (/repo fixes F62, F62b made break and continue flow edges; Model/ReachX.v is the analysis with
+   them, Model/SemXS.v the interpreter with every abrupt exit, raising only caught classes at the
+   designated points.)  Fragment [okx]: return, break and continue anywhere except under a try
+   statement with a finally clause and in a finally clause; no free raise. *)
+
+(* For every program of [okx], every amount of fuel, every decision list and every state p
+   abstracted by s: every read event of the run is among the alternatives listed for its site; a
+   run that ends normally / at a break / at a continue ends in a state abstracted by the
+   environment of the flow supp continues in / joins behind the loop / sends round the loop. *)
+Theorem C02X_sound : forall fuel c p ds s, okx c = true -> abs p s -> goodX c s (runXs fuel c p ds).
+Proof. exact soundx. Qed.
+Print Assumptions C02X_sound.
+
+Theorem C02X_read_definition_reported : forall fuel c ds p' tr o ds' r d,
+  okx c = true -> runXs fuel c renv0 ds = DoneX p' tr o ds' -> In (r, Some d) tr ->
+  In (Some d) (seenx c aenv0 r) /\ e02x c aenv0 r = false /\ usedx c aenv0 d = true.
+Proof. exact c02x_sound. Qed.
+Print Assumptions C02X_read_definition_reported.
+
+Theorem C02X_no_false_unused : forall c d,
+  okx c = true -> In d (unused_sitesx c aenv0) ->
+  forall fuel ds p' tr o ds' r, runXs fuel c renv0 ds = DoneX p' tr o ds' -> ~ In (r, Some d) tr.
+Proof. exact no_false_unusedx. Qed.
+Print Assumptions C02X_no_false_unused.
+
+(* The extended analysis is the old one on programs without break / continue (same sets of
+   alternatives everywhere), so C02_sound and C02X_sound speak about the same code. *)
+Theorem C02X_extends_C02 : forall c s, nobc c = true ->
+  (sub (nrm (anx c s)) (an c s) /\ sub (an c s) (nrm (anx c s))) /\
+  (forall r, subl (seenx c s r) (seen c s r) /\ subl (seen c s r) (seenx c s r)).
+Proof. exact anx_nobc. Qed.
+Print Assumptions C02X_extends_C02.
+
+(* Non-vacuity (defect F62):   x = 0 (1);  for y in ys (2):  x = 1 (3); if c: break;  x = 2 (4)
+                               print(x) (read 10)
+   The run that breaks on the first trip reads site 3; the analysis with exit edges lists it, the
+   analysis without them (the code before F62) does not. *)
+Example C02X_example :
+  okx ex_brk = true /\
+  (exists p' tr o ds', runXs 50 ex_brk renv0 [1; 0]%nat = DoneX p' tr o ds' /\ In (10%N, Some 3%N) tr) /\
+  In (Some 3%N) (seenx ex_brk aenv0 10%N) /\ ~ In (Some 3%N) (seen ex_brk aenv0 10%N).
+Proof.
+  split; [reflexivity|]. split; [|split; [apply ex_brk_seenx|apply ex_brk_seen_old]].
+  vm_compute. do 4 eexists. split; [reflexivity|]. left. reflexivity.
+Qed.
+
+(* Outside [okx] the statement is FALSE of the faithful model (same family as K3): a break under
+   a try with a finally clause -
+     while c:  try:  x = 1 (1); if c: break;  x = 2 (2)   finally: print(x) (read 10)
+   the finally clause reads site 1, supp lists only site 2 (and the binding before the loop). *)
+Definition ex_brk_fin : cmd :=
+  (While Skip (Try false (Seq (Bind 1 0) (Seq (Branch (Exit KBrk) Skip) (Bind 2 0))) false HNil Skip (Read 10 0)) Skip)%N.
+Theorem C02X_exit_under_finally_refuted :
+  okx ex_brk_fin = false /\
+  (exists p' tr o ds', runXs 50 ex_brk_fin renv0 [1; 0]%nat = DoneX p' tr o ds' /\ In (10%N, Some 1%N) tr) /\
+  existsb (alt_eqb (Some 1%N)) (seenx ex_brk_fin aenv0 10%N) = false.
+Proof.
+  split; [reflexivity|]. split; [|reflexivity].
+  vm_compute. do 4 eexists. split; [reflexivity|]. left. reflexivity.
+Qed.
+Print Assumptions C02X_exit_under_finally_refuted.
+
+(* ... and an exception raised in the MIDDLE of a try body (outside the property's domain, which
+   raises only at the first or last statement):
+     try:  x = 1 (1); if c: raise E0;  x = 2 (2)    except E0: print(x) (read 10)
+   the handler reads site 1; supp joins only the states before and after the whole body. *)
+Definition ex_mid_raise : cmd :=
+  (Try false (Seq (Bind 1 0) (Seq (Branch (Exit (KExc 0)) Skip) (Bind 2 0))) false
+       (HCons Skip None (Read 10 0) HNil) Skip Skip)%N.
+Theorem C02X_mid_body_raise_refuted :
+  okx ex_mid_raise = false /\
+  (exists p' tr o ds', runXs 50 ex_mid_raise renv0 [0]%nat = DoneX p' tr o ds' /\ In (10%N, Some 1%N) tr) /\
+  existsb (alt_eqb (Some 1%N)) (seenx ex_mid_raise aenv0 10%N) = false.
+Proof.
+  split; [reflexivity|]. split; [|reflexivity].
+  vm_compute. do 4 eexists. split; [reflexivity|]. left. reflexivity.
+Qed.
+Print Assumptions C02X_mid_body_raise_refuted.
